@@ -126,7 +126,9 @@ class LuaGen:
         self.rng = rng
         self.max_depth = max_depth
         self.names = names or [b'a', b'b', b'x', b'y', b'foo', b'bar', b'i', b'n', b'tbl', b'p1', b'_v', b'ba', b'aa',
-                               b'player_x', b'endx', b'dox', b'nilx', b'x2', b'T', b'Zz']
+                               b'player_x', b'endx', b'dox', b'nilx', b'x2', b'T', b'Zz',
+                               # identifiers that differ from a keyword in letter case only (Lua is case-sensitive)
+                               b'In', b'Do', b'If', b'END', b'Nil', b'True', b'Function', b'NOT', b'oR', b'Local']
         if glyph_names:
             self.names = self.names + [b'\x80x', b'x\x99', b'\xe3\x81']
             sw = [w for w in source_words() if w != b'require']
